@@ -28,7 +28,48 @@ def spec_accept(empty, same_id, n_create, n_delete, allow):
     return (not empty) and same_id and n_create == 1 and n_delete <= 1 and (allow or n_delete == 1)
 
 
+class _Subst(ast.NodeTransformer):
+    def __init__(self, mapping):
+        self.mapping = mapping
+
+    def visit_Name(self, n):
+        if isinstance(n.ctx, ast.Load) and n.id in self.mapping:
+            return self.mapping[n.id]
+        return n
+
+
+def inline_simple_call(prog: Program, cls_name: str, e):
+    """self._helper(a, b) / cls._helper(a, b) where the helper's body is a single `return <expr>`:
+    the expression with the parameters replaced by the arguments; anything else is returned unchanged."""
+    import copy as _copy
+    if not (isinstance(e, ast.Call) and isinstance(e.func, ast.Attribute) and isinstance(e.func.value, ast.Name)
+            and e.func.value.id in ('self', 'cls', cls_name)):
+        return e
+    target = prog.cls(cls_name).find(e.func.attr)
+    if target is None or target.kind not in ('method', 'classmethod', 'staticmethod'):
+        return e
+    body = [s for s in target.node.body if not (isinstance(s, ast.Expr) and isinstance(s.value, ast.Constant))]
+    if len(body) != 1 or not isinstance(body[0], ast.Return) or body[0].value is None:
+        return e
+    params = [a.arg for a in target.node.args.args]
+    if target.kind != 'staticmethod':
+        params = params[1:]
+    if len(e.args) > len(params) or any(k.arg is None for k in e.keywords):
+        return e
+    mapping = dict(zip(params, e.args))
+    for k in e.keywords:
+        mapping[k.arg] = k.value
+    if set(params) - set(mapping):
+        return e
+    return _Subst(mapping).visit(_copy.deepcopy(body[0].value))
+
+
 class Evaluator:
+    prog: Optional[Program] = None
+
+    def x(self, e):
+        return inline_simple_call(self.prog, 'MosCollection', e) if self.prog is not None else e
+
     def __init__(self, fi: FuncInfo, row):
         self.fi = fi
         self.empty, self.same_id, self.n_create, self.n_delete, self.allow = row
@@ -52,6 +93,7 @@ class Evaluator:
 
     def comp_length(self, e) -> Optional[int]:
         """[mr for mr in self.mos_readers if mr.mos_type ==/!= <Class>]"""
+        e = self.x(e)
         if not isinstance(e, (ast.ListComp, ast.GeneratorExp)) or len(e.generators) != 1:
             return None
         g = e.generators[0]
@@ -75,6 +117,7 @@ class Evaluator:
     def num(self, e):
         if isinstance(e, ast.Constant) and isinstance(e.value, int):
             return e.value
+        e = self.x(e)
         if isinstance(e, ast.Call) and norm(e.func) == 'len' and len(e.args) == 1:
             n = self.length_of(e.args[0])
             if n is None:
@@ -154,16 +197,31 @@ class Evaluator:
             raise StopIteration
         if isinstance(s, ast.For) and norm(s.iter) in self.aliases and not s.orelse:
             # for mr in readers: if mr.ro_id != ro_id: raise ...   (the all(...) test written as a loop)
-            if len(s.body) == 1 and isinstance(s.body[0], ast.If) and not s.body[0].orelse and isinstance(s.body[0].test, ast.Compare) \
-                    and len(s.body[0].test.ops) == 1 and 'ro_id' in norm(s.body[0].test.left) and 'ro_id' in norm(s.body[0].test.comparators[0]):
-                differs = isinstance(s.body[0].test.ops[0], (ast.NotEq, ast.IsNot))
+            #    or: for mr in readers: if mr.ro_id == ro_id: continue; raise ...
+            body = list(s.body)
+            test, guarded, negate = None, None, False
+            if body and isinstance(body[0], ast.If) and not body[0].orelse:
+                if len(body) == 1:
+                    test, guarded = body[0].test, body[0].body
+                elif len(body[0].body) == 1 and isinstance(body[0].body[0], ast.Continue):
+                    test, guarded, negate = body[0].test, body[1:], True
+            while isinstance(test, ast.UnaryOp) and isinstance(test.op, ast.Not):
+                test, negate = test.operand, not negate
+            if isinstance(test, ast.Compare) and len(test.ops) == 1 and 'ro_id' in norm(test.left) and 'ro_id' in norm(test.comparators[0]) \
+                    and isinstance(test.ops[0], (ast.NotEq, ast.IsNot, ast.Eq, ast.Is)):
+                differs = isinstance(test.ops[0], (ast.NotEq, ast.IsNot)) != negate
                 mismatch = (not self.empty) and not self.same_id
-                if (mismatch if differs else ((not self.empty) and self.same_id)):
-                    self.run(s.body[0].body)
+                # the guarded statements run for some element iff ...
+                if (mismatch if differs else (not self.empty)):
+                    if not differs and not self.same_id and not all(isinstance(g, (ast.Raise,)) for g in guarded):
+                        raise Unrecognised(norm(s)[:120])
+                    if any(isinstance(g, (ast.Break, ast.Continue)) for g in guarded):
+                        raise Unrecognised(norm(s)[:120])
+                    self.run(guarded)
                 return
             raise Unrecognised(norm(s)[:120])
         if isinstance(s, ast.Assign) and len(s.targets) == 1:
-            t, v = s.targets[0], s.value
+            t, v = s.targets[0], self.x(s.value)
             n = self.comp_length(v)
             tn = norm(t)
             if n is not None:
@@ -238,6 +296,7 @@ def accept_table(res: CheckResult, prog: Program):
     for empty, same_id, nc, nd, allow in rows:
         if empty and (nc or nd or not same_id):
             continue
+        Evaluator.prog = prog
         ev = Evaluator(fi, (empty, same_id, nc, nd, allow))
         try:
             try:
